@@ -225,3 +225,36 @@ pub fn fsl(_args: &hxlib::util::Args) -> i32 {
     }
     0
 }
+
+/// probe-v20list: 2.0 list columns whose item pages are split by a small max_page_bytes
+pub fn v20list(_args: &hxlib::util::Args) -> i32 {
+    use arrow_buffer::{NullBuffer, OffsetBuffer};
+    let rt = runtime();
+    let mk = |lens: &[usize], list_nulls: &[usize], item_nulls: bool| -> ArrayRef {
+        let total: usize = lens.iter().sum();
+        let items: ArrayRef = Arc::new(UInt8Array::from((0..total).map(|i| if item_nulls && i % 2 == 1 { None } else { Some(i as u8) }).collect::<Vec<_>>()));
+        let f = Arc::new(Field::new("item", DataType::UInt8, true));
+        let nb = if list_nulls.is_empty() { None } else { Some(NullBuffer::from((0..lens.len()).map(|i| !list_nulls.contains(&i)).collect::<Vec<bool>>())) };
+        Arc::new(ListArray::new(f, OffsetBuffer::<i32>::from_lengths(lens.to_vec()), items, nb))
+    };
+    let shapes: Vec<(&str, Vec<usize>, Vec<usize>, bool)> = vec![
+        ("reduced", vec![0, 0, 0, 10, 1, 2], vec![1, 2], true),
+        ("no item nulls", vec![0, 0, 0, 10, 1, 2], vec![1, 2], false),
+        ("no null lists", vec![0, 0, 0, 10, 1, 2], vec![], true),
+        ("no empty/null lists", vec![1, 2, 1, 10, 1, 2], vec![], false),
+        ("one list of 10", vec![10], vec![], false),
+        ("two lists 3,3", vec![3, 3], vec![], false),
+        ("lists 1,1,1", vec![1, 1, 1], vec![], false),
+        ("lists 2,2 item nulls", vec![2, 2], vec![], true),
+    ];
+    for (name, lens, ln, inulls) in &shapes {
+        for maxp in [None, Some(1u64), Some(2), Some(4), Some(16), Some(64)] {
+            for cache in [None, Some(0u64)] {
+                let col = mk(lens, ln, *inulls);
+                let r = roundtrip_col(&rt, vec![col], LanceFileVersion::V2_0, vec![], FileWriterOptions { max_page_bytes: maxp, data_cache_bytes: cache, ..Default::default() });
+                println!("{name}\tmax_page_bytes={maxp:?} cache={cache:?}\t{}", match r { Ok(()) => "ok".to_string(), Err(e) => e.replace('\n', " ").chars().take(150).collect::<String>() });
+            }
+        }
+    }
+    0
+}
